@@ -261,3 +261,53 @@ def rule_find_node_identity(ctx, res):
     ns.run()
     okn = all(p.ret[0] == 'call' and lib.cmp_kind_of_call(p.ret[1]) == 'eq' and {tuple(field_chain(strip_transparent(a))) for a in p.ret[2]} == {('handle',)} for p in ns.complete_paths()) and ns.complete_paths()
     res.check(okn, 'TABLE', nb.path, 'two nodes are the same entry iff their handles (id and address) are equal')
+
+
+def rule_send_transmits(ctx, res):
+    """SEND-TRANSMITS: `Socket::send(message, addr)` returning Ok means the encoded message was handed to the
+    UDP socket for `addr`.  The rules that count `Socket::send` calls (one reply per query, announces, search
+    queries) lean on this: a send that can return Ok without transmitting makes those counts meaningless."""
+    from .lib import Sym, strip_transparent, find_calls, agg_variant, is_param, root_of, field_chain
+    b = ctx.co('socket::Socket::send')
+    res.touch(b)
+    s = Sym(b)
+    s.run()
+    n = 0
+    ok = True
+    why = ''
+    for p in s.complete_paths():
+        if agg_variant(p.ret) != 'Ok':
+            continue
+        n += 1
+        sends = [e for e in p.effects if e[0] == 'call' and e[1] and e[1].endswith('SocketTrait::send_to')]
+        if len(sends) != 1:
+            ok = False
+            why = 'a path returns Ok(()) after %d send_to calls' % len(sends)
+            continue
+        a = [strip_transparent(x) for x in sends[0][2]]
+        enc = find_calls(a[1], 'bencode::encode')
+        good = (len(a) == 3 and field_chain(a[0])[-1:] == ['inner_socket'] and bool(enc) and is_param(root_of(strip_transparent(enc[0][2][0])), 'message')
+                and is_param(root_of(a[2]), 'addr') and not field_chain(a[2]))
+        # .. and the future was awaited and its result examined (`?`)
+        awaited = any(lib.literal(c)[0] == 'variant' and find_calls(lib.literal(c)[1], 'SocketTrait::send_to') and lib.fmt(lib.literal(c)[1]).startswith('Try>::branch(await(') for c in p.conds)
+        if not (good and awaited):
+            ok = False
+            why = 'send_to(%s) awaited=%s' % (', '.join(lib.fmt(x)[:50] for x in a), awaited)
+    res.check(ok and n >= 1, 'MPT', b.path, 'Socket::send returns Ok only after awaiting send_to(encode(message), addr) on the UDP socket (no silent drop)', detail=why, key='send-transmits')
+    # the production transport forwards to tokio's UdpSocket
+    ub = ctx.co('socket::<impl SocketTrait for tokio::net::UdpSocket>::send_to')
+    res.touch(ub)
+    us = Sym(ub)
+    us.run()
+    oku = False
+    nu = 0
+    for p in us.complete_paths():
+        nu += 1
+        c = find_calls(p.ret, 'tokio::net::UdpSocket::send_to')
+        if c:
+            a = [strip_transparent(x) for x in c[0][2]]
+            oku = is_param(root_of(a[0]), 'self') and is_param(root_of(a[1]), 'buf') and is_param(root_of(a[2]), 'target')
+        else:
+            oku = False
+            break
+    res.check(oku and nu >= 1, 'FLOW', ub.path, 'the UDP transport passes buffer and target unchanged to tokio::net::UdpSocket::send_to', key='transport')
